@@ -130,7 +130,12 @@ type lemmaDecl struct {
 	uses   []string // axioms are always available; "uses" lists lemmas assumed
 }
 
+type literalCheck struct {
+	pkg, name, text, line string
+}
+
 type specDB struct {
+	literals []literalCheck
 	funcs  map[string]*funcContract
 	specs  map[string]*specFunc
 	axioms []*axiomDecl
@@ -447,6 +452,18 @@ func (db *specDB) loadSpecFile(path string, pkgName string, isGo bool) error {
 			cl.line = where
 			lm.cl = cl
 			db.lemmas = append(db.lemmas, lm)
+			cur = nil
+		case "literal":
+			// literal <pkgVar> "<source text that must occur in its initialiser>"
+			f := strings.SplitN(strings.TrimSpace(rest), " ", 2)
+			if len(f) != 2 {
+				return fmt.Errorf("%s: literal <var> \"text\"", where)
+			}
+			txt, err := strconv.Unquote(strings.TrimSpace(f[1]))
+			if err != nil {
+				return fmt.Errorf("%s: bad literal string", where)
+			}
+			db.literals = append(db.literals, literalCheck{pkg: pkgName, name: f[0], text: txt, line: where})
 			cur = nil
 		case "params":
 			cur.params = strings.Fields(strings.ReplaceAll(rest, ",", " "))
